@@ -82,11 +82,12 @@ Definition check_skel (vs : list nat) (perms : list (list nat)) (s : list (nat *
      let cls := map fst (filter (fun os' => bl_eqb (snd os) (snd os')) AS) in
      let ess := filter (fun e => forallb (fun o' => pmemb e o') cls) (fst os) in
      let d := mkd vs (fst os) in
-     forallb (fun ord => negb (fwdb (fst os) ord) ||
-                         match cpdag_model d ord with
-                         | Some (_, c, _) => pseteqb c ess
-                         | None => false
-                         end) perms) AS.
+     forallb (fun ord => if fwdb (fst os) ord       (* [if], not [||]: vm_compute is strict *)
+                         then match cpdag_model d ord with
+                              | Some (_, c, _) => pseteqb c ess
+                              | None => false
+                              end
+                         else true) perms) AS.
 
 Lemma forallb_set_ext {A} (f : A -> bool) l m : (forall x, In x l <-> In x m) -> forallb f l = forallb f m.
 Proof.
@@ -105,7 +106,7 @@ Proof.
   specialize (Hc (o, sig vs (mkd vs o))). cbv zeta in Hc. simpl fst in Hc. simpl snd in Hc.
   assert (Hin : In (o, sig vs (mkd vs o)) (map (fun o0 => (o0, sig vs (mkd vs o0))) (acyc_orients vs s))).
   { apply in_map_iff. exists o. split; [reflexivity|exact Ho]. }
-  specialize (Hc Hin). rewrite forallb_forall in Hc. specialize (Hc ord Hord). rewrite Hf in Hc. cbn [negb orb] in Hc.
+  specialize (Hc Hin). rewrite forallb_forall in Hc. specialize (Hc ord Hord). rewrite Hf in Hc.
   destruct (cpdag_model (mkd vs o) ord) as [[[vs' c] r]|]; [|discriminate].
   exists vs', c, r. split; [reflexivity|]. intros e. rewrite (pseteqb_spec _ _ Hc e).
   unfold essential_edges. simpl D. rewrite !filter_In.
